@@ -34,6 +34,8 @@ func main() {
 		}
 		seed, _ := strconv.Atoi(os.Getenv("VERIF_SEED"))
 		os.Exit(gv.RunCheck(id, *tier, seed))
+	case "dbgreplay":
+		gv.DebugReplay(os.Args[2], os.Args[3])
 	case "replay":
 		os.Exit(gv.ReplayFileCmd(os.Args[2]))
 	default:
